@@ -36,7 +36,8 @@ def run(chk, repo, tier):
     chk.not_decided += ['linearity in photons and QE numerically', 'monotonicity']
 
     from .extra_rules import bayer_tiling_rule
-    bayer_tiling_rule(chk, repo, 'C16-i')
+    with chk.guard('C16-i', 'detector.collect_charge_bayer'):
+        bayer_tiling_rule(chk, repo, 'C16-i')
     # ------------------------------------------------------------ C16-a / b
     f, paths, _ = analyse(repo, 'detector.collect_charge')
     for p in returns(paths):
@@ -59,63 +60,57 @@ def run(chk, repo, tier):
                 e.data.get('kwargs', {}).get('waveunit') is not None
     chk.ob('C16-b', 'B5-default', fq.key, 'waveunit is passed explicitly to Spectrum.sample', oks and n > 0, '', fq.loc())
 
-    fb, bpaths, _ = analyse(repo, 'detector.collect_charge_bayer', config={'flatten': TRUE})
-    rets = returns(bpaths)
-    if not rets:
-        raise AnalysisError('collect_charge_bayer: no returning path')
-    colours = (('red', 'R'), ('green', 'G'), ('blue', 'B'))
-    for p in rets:
-        env = p.env
-        chans = {}
-        for col, letter in colours:
-            v = env.get(f'{col}_e')
-            if not isinstance(v, Poly):
-                raise AnalysisError(f'collect_charge_bayer: {col}_e not found')
-            chans[col] = v
-            es = [a for a in v.atoms(deep=False) if is_app(a, 'einsum')]
-            qc = [e for e in p.calls('detector.qe_asarray') if e.bound.get('qe') == S(f'qe_{col}')]
-            ok = len(es) == 1 and spec_of(es[0]) == 'ijk,i->jk' and len(qc) == 1 and es[0][2][2] == qc[0].result
-            chk.ob('C16-a', 'U-einsum', fb.key, f'{col} channel = einsum over wavelength with qe_{col}', ok,
-                   nf.fmt_atom(es[0])[:160] if es else 'no einsum', fb.loc())
-            okb = len(qc) == 1 and qc[0].bound.get('waveunit') == S('waveunit') and qc[0].bound.get('wave') == S('wave')
-            chk.ob('C16-b', 'D-flow', fb.key, f'qe_{col} through qe_asarray with the caller\'s waveunit', okb, '', fb.loc())
-            # C16-d: the factor multiplying the channel image
-            mosaic = v / Poly.atom(es[0]) if len(es) == 1 else None
-            ma = mosaic.single_atom() if isinstance(mosaic, Poly) else None
-            exact = False
-            det = f'mosaic = {fmt(mosaic)[:200]}'
-            if ma is not None and is_app(ma):
-                if ma[1] in EXACT_REPLICATORS:
-                    exact = True
-                elif ma[1] == 'scipy.ndimage.zoom':
-                    gm = kw(ma[2], 'grid_mode')
-                    exact = gm == TRUE and kw(ma[2], 'order') == C(0)
-                    if not exact:
-                        det = ('scipy.ndimage.zoom(order=0) without grid_mode maps output index j to '
-                               'round(j*(n-1)/(k*n-1)), which is not j//k: sub-pixels get the wrong colour from '
-                               'oversample 3 upward')
-            chk.ob('C16-d', 'API-contract', fb.key, f'{col} mosaic expanded by an exact replicator', exact, det, fb.loc())
-        # C16-c: blocks equal modulo colour
-        def recolour(v, frm, to):
-            m = {}
-            for a in nf.value_atoms(v):
-                if a == ('sym', f'qe_{frm[0]}'):
-                    m[a] = S(f'qe_{to[0]}')
-            v2 = nf.subst_value(v, m)
-            # kernel letter
-            return _swap_const(v2, frm[1], to[1])
-        ref = chans['red']
-        for col, letter in colours[1:]:
-            same = recolour(ref, ('red', 'R'), (col, letter)) == chans[col]
-            chk.ob('C16-c', 'N-sibling', fb.key, f'{col} block = red block with (qe_red, "R") -> (qe_{col}, "{letter}")', same,
-                   '' if same else f'{col}: {fmt(chans[col])[:200]}', fb.loc())
-        for col, letter in colours:
-            has = any(isinstance(x, Const) and x.value == letter for a in nf.value_atoms(chans[col])
-                      if is_app(a, 'eq') for x in _consts(a))
-            chk.ob('C16-c', 'T-letter', fb.key, f'{col} kernel selects the letter "{letter}"', has, '', fb.loc())
-        tot = chans['red'] + chans['green'] + chans['blue']
-        chk.ob('C16-c', 'N-sibling', fb.key, 'flattened frame = red + green + blue', p.ret == tot,
-               '' if p.ret == tot else f'returns {fmt(p.ret)[:200]}', fb.loc(p.node))
+    fb = repo.func('detector.collect_charge_bayer')
+    with chk.guard(['C16-a', 'C16-b', 'C16-c', 'C16-d'], fb.key, 'colour channels recognisable in the result'):
+        chans_by_path = bayer_channels(repo, chk)
+        colours = (('red', 'R'), ('green', 'G'), ('blue', 'B'))
+        _, fpaths, _ = analyse(repo, fb, config={'flatten': TRUE})
+        for chans in chans_by_path:
+            frets = [p for p in returns(fpaths) if frozenset((nf.vkey(c), pl) for c, pl, _ in p.conds) == chans['_conds']]
+            for col, letter in colours:
+                v, es, qc = chans[col]
+                ok = spec_of(es) == 'ijk,i->jk' and ('sym', 'img') in nf.value_atoms(es[2][1])
+                chk.ob('C16-a', 'U-einsum', fb.key, f'{col} channel = einsum over wavelength with qe_{col}', ok,
+                       nf.fmt_atom(es)[:160], fb.loc())
+                b = bound_of(qc)
+                okb = b.get('waveunit') == S('waveunit') and b.get('wave') == S('wave')
+                chk.ob('C16-b', 'D-flow', fb.key, f'qe_{col} through qe_asarray with the caller\'s waveunit', okb, '', fb.loc())
+                mosaic = v / Poly.atom(es)
+                ma = mosaic.single_atom() if isinstance(mosaic, Poly) else None
+                exact = None
+                det = f'mosaic = {fmt(mosaic)[:200]}'
+                if ma is not None and is_app(ma):
+                    if ma[1] in EXACT_REPLICATORS:
+                        exact = True
+                    elif ma[1] == 'scipy.ndimage.zoom':
+                        gm = kw(ma[2], 'grid_mode')
+                        exact = gm == TRUE and kw(ma[2], 'order') == C(0)
+                        if not exact:
+                            det = ('scipy.ndimage.zoom(order=0) without grid_mode maps output index j to '
+                                   'round(j*(n-1)/(k*n-1)), which is not j//k: sub-pixels get the wrong colour from '
+                                   'oversample 3 upward')
+                    elif ma[1] in ('tile', 'where'):
+                        exact = False
+                        det = 'the colour pattern is not expanded to the oversampled grid at all'
+                chk.ob('C16-d', 'API-contract', fb.key, f'{col} mosaic expanded by an exact replicator', exact, det, fb.loc())
+                has = any(isinstance(x, Const) and x.value == letter for a2 in nf.value_atoms(v)
+                          if is_app(a2, 'eq') for x in _consts(a2))
+                others = any(isinstance(x, Const) and x.value in 'RGB' and x.value != letter for a2 in nf.value_atoms(v)
+                             if is_app(a2, 'eq') for x in _consts(a2))
+                chk.ob('C16-c', 'T-letter', fb.key, f'{col} kernel selects the letter "{letter}"', has and not others, '', fb.loc())
+
+            def recolour(v, frm, to):
+                m = {a2: S(f'qe_{to[0]}') for a2 in nf.value_atoms(v) if a2 == ('sym', f'qe_{frm[0]}')}
+                return _swap_const(nf.subst_value(v, m), frm[1], to[1])
+            ref = chans['red'][0]
+            for col, letter in colours[1:]:
+                same = recolour(ref, ('red', 'R'), (col, letter)) == chans[col][0]
+                chk.ob('C16-c', 'N-sibling', fb.key, f'{col} block = red block with (qe_red, "R") -> (qe_{col}, "{letter}")', same,
+                       '' if same else f'{col}: {fmt(chans[col][0])[:200]}', fb.loc())
+            tot = chans['red'][0] + chans['green'][0] + chans['blue'][0]
+            okf = bool(frets) and all(p.ret == tot for p in frets)
+            chk.ob('C16-c', 'N-sibling', fb.key, 'flattened frame = red + green + blue', okf,
+                   '' if okf else f'returns {fmt(frets[0].ret)[:200] if frets else "?"}', fb.loc())
 
     # ---------------------------------------------------------------- C16-e
     eff = Effects(repo)
@@ -214,6 +209,45 @@ def run(chk, repo, tier):
                     for p in returns(paths2))
         loud = any(any(e.kind == 'call' and e.data.get('callee') == 'ext:warnings.warn' for e in p.events) for p in sat)
         chk.ob('C16-h', 'D-order', fa.key, f'warning only when requested and saturated [{label}]', quiet and loud, '', fa.loc())
+
+
+def bound_of(atom):
+    return {k.items[0].value: k.items[1] for k in atom[2]}
+
+
+def bayer_channels(repo, chk=None):
+    """Per returning path of collect_charge_bayer(flatten=False): colour -> (channel term, einsum atom,
+    qe_asarray call atom), identified from the *result* by the efficiency each channel image is built with."""
+    f, paths, _ = analyse(repo, 'detector.collect_charge_bayer', config={'flatten': FALSE})
+    out = []
+    for p in returns(paths):
+        r = p.ret
+        if not (isinstance(r, Tup) and len(r) == 3 and all(isinstance(i, Poly) and len(i.terms) == 1 for i in r.items)):
+            raise AnalysisError(f'collect_charge_bayer(flatten=False) does not return three channel images: {fmt(r)[:160]}')
+        chans = {}
+        for v in r.items:
+            es = [a for a in v.atoms(deep=False) if is_app(a, 'einsum')]
+            if len(es) != 1:
+                raise AnalysisError('channel image is not einsum(...) * mosaic')
+            qcs = [a for a in nf.value_atoms(es[0][2][2]) if is_app(a, 'call:detector.qe_asarray')]
+            if len(qcs) != 1:
+                raise AnalysisError('channel efficiency does not come from qe_asarray')
+            q = bound_of(qcs[0]).get('qe')
+            qa = q.single_atom() if isinstance(q, Poly) else None
+            col = qa[1][3:] if qa is not None and qa[0] == 'sym' and qa[1].startswith('qe_') else None
+            if col in chans and chk is not None:
+                chk.ob('C16-c', 'N-sibling', f.key, f'each colour channel uses its own efficiency (qe_{col} used twice)', False,
+                       f'two channel images are built with qe_{col}', f.loc())
+            if col not in ('red', 'green', 'blue') or col in chans:
+                raise AnalysisError(f'channel colour not identified ({fmt(q)})')
+            chans[col] = (v, es[0], qcs[0])
+        if set(chans) != {'red', 'green', 'blue'}:
+            raise AnalysisError('not all three colour channels found')
+        chans['_conds'] = frozenset((nf.vkey(c), pl) for c, pl, _ in p.conds)
+        out.append(chans)
+    if not out:
+        raise AnalysisError('collect_charge_bayer: no returning path')
+    return out
 
 
 def _consts(a):
